@@ -10,7 +10,7 @@ sys.path.insert(0, HERE)
 
 ID = 'C17'
 LEVEL = 'proof'
-SIDECARS = ['types_sub', 'types_ctor', 'switches']
+SIDECARS = ['types_sub', 'types_ctor', 'cfg_common', 'switches']
 FUNCTIONS = [
     'src.ir.types._get_type_substitution',
     'src.ir.types._to_type_variable_free',
